@@ -25,8 +25,10 @@ tvars == <<tid, l, s, pre, pc, lastName, lastVerdict, nbad>>
 EFields == {"lastE", "lastRes", "calcRes"}
 Pick(want, cands) == IF want \in ToSet(cands) THEN want ELSE cands[1]
 Lift0(o) == [o EXCEPT !.cons = ToSet(o.cons), !.lastE = o.lastE[1], !.lastRes = o.lastRes[1], !.calcRes = o.calcRes[1]]
+\* (the same for the kinetic energy: lastKalt lists every recently seen momentum tuple with that kinetic energy)
 LiftWith(o, exp) == [o EXCEPT !.cons = ToSet(o.cons), !.lastE = Pick(exp.lastE, o.lastE),
-                              !.lastRes = Pick(exp.lastRes, o.lastRes), !.calcRes = Pick(exp.calcRes, o.calcRes)]
+                              !.lastRes = Pick(exp.lastRes, o.lastRes), !.calcRes = Pick(exp.calcRes, o.calcRes),
+                              !.lastK = IF exp.lastK \in ToSet(o.lastKalt) THEN exp.lastK ELSE o.lastK]
 (* at the end of a trial the energies should belong to the current configuration *)
 LiftEnd(o) == LET c == Cfg(Lift0(o))
               IN [o EXCEPT !.cons = ToSet(o.cons), !.lastE = Pick(c, o.lastE),
